@@ -12,7 +12,7 @@ from ..model import dotted_name, src, body_wo_doc
 from ..report import AnalysisError
 from ..sym import Ev, Obj, LibV, AVG, as_sym, is_sym, is_indexed, Indexed
 from . import C01, C05, C11
-from .C12 import Proxy
+from .C12 import Proxy, Reuse
 
 LEVEL = "other"
 TECHNIQUE = "static analysis: symmetric-reduction / no-positional-access check on folded formulas, override-vs-base validation cross-check (installed qha source), key canonicalisation folding, loop-carried dependence"
@@ -31,12 +31,9 @@ ASSUMPTIONS = ["least-squares polynomial fits in an affine function of the absci
 
 
 def r_weights(ctx, model):
-    class Only(Proxy):
-        def check(self, cond, instance, *a, **k):
-            if instance.startswith(("outer reduction", "q_weights", "method average", "inner reduction")):
-                return self.ctx.check(cond, instance, *a, **k)
-            return cond
-    C01.r_average(Only(ctx, {"x"}), model)
+    px = Reuse(ctx, None, minimum=4)      # every instance of the mode-average rule bears on presentation independence
+    C01.r_average(px, model)
+    px.done("C01.r_average")
 
 
 def r_symmetric(ctx, model):
@@ -185,24 +182,24 @@ def r_keys(ctx, model):
 
 
 def r_fits(ctx, model):
-    class Only(Proxy):
-        def check(self, cond, instance, *a, **k):
-            if instance.startswith(("static part", "static pressure")):
-                return self.ctx.check(cond, instance, *a, **k)
-            return cond
-    C05.r_sum(Only(ctx, {"x"}), model)
-    C05.r_pstatic(Only(ctx, {"x"}), model)
+    px = Reuse(ctx, lambda lab: lab.startswith(("static part", "static pressure", "static")), minimum=2)
+    C05.r_sum(px, model)
+    C05.r_pstatic(px, model)
+    px.done("C05.r_sum / C05.r_pstatic")
 
 
 def r_independent(ctx, model):
     ref = "cij.core.mode_gamma:interpolate_modes"
     f = model.func(ref)
     ctx.fn(ref)
+    # the (q, mode) loop: the innermost for-loop (nested pair, or one loop over itertools.product) whose body stores into
+    # subscripted arrays
     fors = [n for n in ast.walk(f) if isinstance(n, ast.For)]
-    outer = [n for n in fors if any(isinstance(c, ast.For) for c in ast.walk(n) if c is not n)]
-    if len(outer) != 1:
-        raise AnalysisError("interpolate_modes: expected one nested loop pair")
-    li = next(c for c in ast.walk(outer[0]) if isinstance(c, ast.For) and c is not outer[0])
+    inner = [n for n in fors if not any(isinstance(c, ast.For) for c in ast.walk(n) if c is not n)]
+    storing = [n for n in inner if any(isinstance(t, ast.Subscript) and isinstance(t.ctx, ast.Store) for st in ast.walk(n) for t in ast.walk(st) if isinstance(st, ast.Assign))]
+    if len(storing) != 1:
+        raise AnalysisError(f"interpolate_modes: expected one (q, mode) loop that fills the output arrays, found {len(storing)}")
+    li = storing[0]
     assigned = set()
     for st in ast.walk(li):
         if isinstance(st, (ast.Assign, ast.AugAssign)):
@@ -240,12 +237,9 @@ def r_independent(ctx, model):
               explanation="a value computed for one (q, mode) pair leaks into the next iteration: the result at (q, m) depends on the order "
                           "of q-points or modes", key="loop.carried")
 
-    class Only(Proxy):
-        def check(self, cond, instance, *a, **k):
-            if "every non-acoustic" in instance:
-                return self.ctx.check(cond, instance, *a, **k)
-            return cond
-    C11.r_loop(Only(ctx, {"x"}), model)
+    px = Reuse(ctx, lambda lab: "every non-acoustic" in lab or lab.startswith("loop."), minimum=1)
+    C11.r_loop(px, model)
+    px.done("C11.r_loop")
 
 
 RULES = [
